@@ -332,6 +332,9 @@ where
     // client->server|outbound, server->client|outbound
     let (mut client_server, mut server_client) = out.split();
     let _target = target.clone();
+    // client->server|outbound
+    // the first datagram goes out before the reply task exists: a send that fails (or is given up) must leave nothing behind
+    client_server.send(to_outbound_send((content, target), server_addr)).await?;
     let relay_task = tokio::spawn(async move {
         // server->client|outbound
         while let Some(next) = server_client.next().await {
@@ -351,8 +354,6 @@ where
         }
         debug!("[udp] server-client relay task done");
     });
-    // client->server|outbound
-    client_server.send(to_outbound_send((content, target), server_addr)).await?;
     Ok((client_server, relay_task))
 }
 
